@@ -244,7 +244,10 @@ def _convert(
     chart_template: Optional[_CONVERT_CHART] = None,
     invalid_property_behaviors: InvalidPropertyBehaviorMapping = {},
 ) -> _CONVERT_SIMFILE:
-    output_simfile = deepcopy(simfile_template) or output_simfile_type.blank()
+    if simfile_template is not None:
+        output_simfile = deepcopy(simfile_template)
+    else:
+        output_simfile = output_simfile_type.blank()
 
     _convert_warps(source=simfile, output=output_simfile)
 
@@ -257,7 +260,10 @@ def _convert(
 
     for _chart in simfile.charts:
         chart: Chart = _chart  # typing workaround
-        output_chart = deepcopy(chart_template) or output_chart_type.blank()
+        if chart_template is not None:
+            output_chart = deepcopy(chart_template)
+        else:
+            output_chart = output_chart_type.blank()
         _copy_properties(
             source=chart,
             output=output_chart,
